@@ -14,7 +14,7 @@ from ..impl import Pen, Dfit, compiled_pen, compiled, call, gen_matrix
 from ..proto import fb, vec, decode, same, canon
 from ..blocks import Blk, group_layout
 
-LEAN_MODULES = ["Skglm.Properties.C16", "Skglm.Properties.C16Run"]
+LEAN_MODULES = ["Skglm.Properties.C16", "Skglm.Properties.C16Run", "Skglm.Properties.C11b"]
 
 
 def null_model(df, X, sw, y, fit_intercept, free=None):
@@ -45,6 +45,7 @@ def null_model(df, X, sw, y, fit_intercept, free=None):
 
 
 def run(ctx, rep):
+    run_sqrt_path(ctx, rep)
     rng = ctx.rng
     rep.rule = ("alpha_max kernels on random gradients and weights (zero weights included); AndersonCD / ProxNewton / "
                 "GroupBCD / MultiTaskBCD fits at alpha_max (1 +- 5e-2) on centred and non-centred targets, with weights, "
@@ -187,6 +188,34 @@ def run(ctx, rep):
                                    dict(tol=1e-9, fit_intercept=fi, max_iter=200, max_epochs=5000))
                 res = bbox.run_case(case)
                 check_null(rep, case, res, fac, b0, fi)
+
+
+def run_sqrt_path(ctx, rep):
+    """SqrtLasso.path(alphas=None) builds its own grid from a critical value: the first point of the grid must be the
+    critical strength of the estimator's documented objective ||y - Xw||_2 + alpha ||w||_1, i.e. ||X^T y||_inf / ||y||
+    (null solution there, non-null just below)"""
+    from skglm.experimental.sqrt_lasso import SqrtLasso
+    rng = ctx.rng
+    for _ in range(ctx.n(8, 60)):
+        n, p = rng.randrange(8, 30), rng.randrange(2, 8)
+        X = np.asfortranarray(gen_matrix(rng, n, p, "gauss"))
+        y = X @ np.array([rng.choice([0.0, 1.0, -2.0]) for _ in range(p)]) + np.array([rng.gauss(0, 1) for _ in range(n)])
+        crit = float(np.max(np.abs(X.T @ y)) / np.linalg.norm(y))
+        rep.count("sqrt-lasso:path-grid", False, ("sqrtpath", hash(X.tobytes())))
+        try:
+            out = SqrtLasso(tol=1e-9).path(X, y, alphas=None, eps=0.5, n_alphas=3)
+        except Exception as e:    # noqa: BLE001
+            rep.violate(f"SqrtLasso.path(alphas=None) raises {type(e).__name__}: {str(e)[:100]}",
+                        dict(site="SqrtLasso.path", kind="raises"), input=dict(X=X.tolist(), y=y.tolist()))
+            continue
+        alphas, coefs = np.asarray(out[0], float), np.asarray(out[1], float)
+        first = coefs[0] if coefs.shape[0] == len(alphas) else coefs[:, 0]
+        if abs(alphas[0] - crit) > 1e-9 * (1 + crit) or np.any(first != 0):
+            rep.violate("SqrtLasso.path(alphas=None) does not start its grid at the critical strength of the documented "
+                        "objective (the first point of the path is not the null model)",
+                        dict(site="SqrtLasso.path", kind="not-critical"), input=dict(X=X.tolist(), y=y.tolist()),
+                        impl_output=dict(first_alpha=float(alphas[0]), first_coef=first.tolist()),
+                        oracle=dict(critical=crit))
 
 
 def check_null(rep, case, res, fac, b0, fi, free=(), w_null=None):
